@@ -229,4 +229,5 @@ def jobs(tier: str) -> list[Job]:
             # a stale view removes or replaces the wrong sibling
             Job('aliasing-histories', 'hyp', lambda: c10._build(tier), 2000 if tier == 'quick' else 60000),
             Job('list-sweep', 'enum', sweeps.list_sweep, exhaustive=True),
-            Job('slot-sweep', 'enum', sweeps.slot_sweep, exhaustive=True)]
+            Job('slot-sweep', 'enum', sweeps.slot_sweep, exhaustive=True),
+            Job('insert-then-edit', 'enum', sweeps.insert_then_edit, exhaustive=True)]
